@@ -2,6 +2,7 @@ package storage
 
 import (
 	"bytes"
+	"math"
 	"sync"
 )
 
@@ -29,6 +30,22 @@ func (s *State) WithGas(gc GasCalculator) *State {
 	return &State{
 		cs:    s.cs,
 		cache: gs,
+		gc:    gc,
+	}
+}
+
+// Unmetered returns a state over the same cache whose accesses are not limited by the gas
+// calculator of s. The block hooks use it: they are not transactions and have to run whatever
+// the transactions have left of the block gas.
+func (s *State) Unmetered() *State {
+	store := s.cache
+	if gs, ok := store.(*GasStore); ok {
+		store = gs.SessionedDirectStorage
+	}
+	gc := NewGasCalculator(math.MaxInt64)
+	return &State{
+		cs:    s.cs,
+		cache: NewGasStore(store, gc),
 		gc:    gc,
 	}
 }
